@@ -1347,7 +1347,9 @@ func (gen *Generator) generateSyntaxQuoteList(arg Sexp) error {
 	gen.AddInstruction(PushInstr{SexpMarker})
 
 	for _, expr := range quotebody {
-		gen.GenerateSyntaxQuote([]Sexp{expr})
+		if err := gen.GenerateSyntaxQuote([]Sexp{expr}); err != nil {
+			return err
+		}
 	}
 
 	gen.AddInstruction(SquashInstr(0))
@@ -1370,7 +1372,9 @@ func (gen *Generator) generateSyntaxQuoteArray(arg Sexp) error {
 	gen.AddInstruction(PushInstr{SexpMarker})
 	for _, expr := range arr.Val {
 		gen.AddInstruction(PushInstr{SexpMarker})
-		gen.GenerateSyntaxQuote([]Sexp{expr})
+		if err := gen.GenerateSyntaxQuote([]Sexp{expr}); err != nil {
+			return err
+		}
 		gen.AddInstruction(SquashInstr(0))
 		gen.AddInstruction(ExplodeInstr(0))
 	}
@@ -1400,12 +1404,16 @@ func (gen *Generator) generateSyntaxQuoteHash(arg Sexp) error {
 		}
 		// value first, since value comes second on rebuild
 		gen.AddInstruction(PushInstr{SexpMarker})
-		gen.GenerateSyntaxQuote([]Sexp{val})
+		if err := gen.GenerateSyntaxQuote([]Sexp{val}); err != nil {
+			return err
+		}
 		gen.AddInstruction(SquashInstr(0))
 		gen.AddInstruction(ExplodeInstr(0))
 
 		gen.AddInstruction(PushInstr{SexpMarker})
-		gen.GenerateSyntaxQuote([]Sexp{key})
+		if err := gen.GenerateSyntaxQuote([]Sexp{key}); err != nil {
+			return err
+		}
 		gen.AddInstruction(SquashInstr(0))
 		gen.AddInstruction(ExplodeInstr(0))
 	}
